@@ -182,6 +182,10 @@ class Ledger(Process):
         if self.parameters.get('amount2'):
             # a second port wired to the accumulator's node: one returned update carries two parts for it
             schema['acc2'] = {'_default': 0, '_emit': True}
+        if self.parameters.get('tvar'):
+            # an emitted variable directly under the root that is called 'time' (an elapsed-time counter of the
+            # model's own): the time key of a row is still the engine's global time
+            schema['tv'] = {'_default': 0.25, '_emit': True}
         if self.parameters.get('vec'):
             # two array-valued accumulators declared with ONE default object
             schema['vec'] = {'_default': VEC0, '_emit': True}
@@ -234,6 +238,8 @@ class Ledger(Process):
         upd = {'log': [tok], 'own': [tok], 'acc': amount, 'clock': timestep}
         if self.parameters.get('amount2'):
             upd['acc2'] = self.parameters['amount2']
+        if self.parameters.get('tvar'):
+            upd['tv'] = 0.3
         if self.parameters.get('reset_at') == k:
             # one update names its own updater (the accumulator is set to 1000); the later plain ones accumulate again
             upd['acc'] = {'_updater': 'set', '_value': 1000}
@@ -248,6 +254,8 @@ class Ledger(Process):
         tg = self.parameters.get('toggle')
         if tg and self.k % tg == 0:
             upd['flag'] = not states['flag']
+            if m is not None:
+                m.ev('flagset', (pid, k), upd['flag'])
         return upd
 
 
